@@ -252,8 +252,20 @@ def ipv6_ser(tier):
     return o
 
 
+SER_IPV6 = "_ZN3ada11serializers4ipv6B5cxx11ERKSt5arrayItLm8EE"
+
+
+def ipv6_parse(tier):
+    o = []
+    for n in lens(tier, (0, 2, 3), range(0, 12)):
+        o.append(Obl(f"ipv6_url_n{n}", "ipv6_parse.c", [U("vk_url_parse_ipv6", stubs=[SER_IPV6])], defs={"N": n, "KERNEL": "F_vk_url_parse_ipv6", "STUB_SER": 1},
+                     unwind=n + 2, harness_unwind=20, witness=(n >= 2), mem_gb=10, replay="generated",
+                     timeout=(400 if tier == Q else 2400), weight=8 + n))
+    return o
+
+
 def prop_C10(tier):
-    return ipv4_kernels(tier) + ser_ipv4(tier) + ipv4_full(tier) + ipv6_ser(tier)
+    return ipv4_kernels(tier) + ser_ipv4(tier) + ipv4_full(tier) + ipv6_ser(tier) + ipv6_parse(tier)
 
 
 def prop_C11(tier):
